@@ -6,7 +6,7 @@ Validity (the API contract): a zero-delay send carries a strictly smaller type t
 processed, so that it never sorts before it (larger type sorts first on equal timestamps)."""
 import argparse, json, os, random
 
-FAMILIES = ("mixed", "ties", "zerodelay", "fanout", "nonmono", "time0", "initdone", "sparse", "single", "chain", "pingpong", "relay", "burst", "laggard")
+FAMILIES = ("mixed", "ties", "zerodelay", "fanout", "nonmono", "time0", "initdone", "sparse", "single", "chain", "pingpong", "relay", "burst", "laggard", "backlog")
 
 
 def gen_chain(seed, size):
@@ -177,7 +177,34 @@ def gen_laggard(seed, size):
             "endmask": [1, 1], "payloads": pay, "init": init, "trans": trans}
 
 
+def gen_backlog(seed, size):
+    """an LP whose events send nothing and lie far apart (fed, in timestamp order and far ahead, by a feeder LP), next to one LP that
+    ticks in steps of 1 and holds the GVT down: several GVT rounds fall between two events of the quiet LP, so that a fossil collection
+    often finds NOTHING new below the GVT while the history left by the previous collection starts with an uncommitted event
+    (directly followed by a checkpoint when one is taken after every event).  LP 0: quiet, LP 1: feeder, LP 2: ticker."""
+    r = random.Random(seed * 41 + 3)
+    gap = r.choice([60, 100])
+    ticks = r.choice([90, 120]) if size == "small" else r.choice([240, 300])
+    feeds = ticks // 3     # the quiet LP has about as many events as the ticker: with one thread each they are busy for the same time
+    pay = [{"size": 0, "padd": 0, "bytes": []}]
+    def snd(off, delay, ty):
+        return {"drule": off, "drule2": off, "delay": delay, "ty": ty, "pid": 0}
+    def tr(ns, sends, mem=-1):
+        return {"draw": 0, "lib": 0, "mem": mem, "out": [{"ns": ns, "sends": sends}]}
+    tick = tr(0, [snd(0, 1, 1)])
+    quiet = tr(1, [], r.choice([-1, 2]))
+    feed = tr(0, [snd(2, r.randint(1, 5), 2), snd(2, gap + r.randint(0, 3), 2), snd(2, 2 * gap + r.randint(0, 3), 2), snd(0, 3 * gap, 3)])
+    trans = [[tick, quiet, feed], [tick, quiet, feed]]
+    init = [[], [snd(0, 1, 3)], [snd(0, 1, 1)]]
+    need = [3 * feeds + 1, feeds + 1, ticks + 1]
+    cap = [3 * feeds + 2, feeds, ticks]
+    return {"seed": seed, "family": "backlog", "nlps": 3, "K": 2, "T": 3, "P": 1, "split": 3, "need": need, "cap": cap,
+            "endmask": [1, 1], "payloads": pay, "init": init, "trans": trans}
+
+
 def gen(seed, family="mixed", size="small"):
+    if family == "backlog":
+        return gen_backlog(seed, size)
     if family == "laggard":
         return gen_laggard(seed, size)
     if family == "burst":
